@@ -245,7 +245,10 @@ def gen_type(rng, depth, o: Opts, hashable=False):
             return gen_enum(rng, o)
         if o.allow_literal and rng.random() < 0.08:
             return gen_literal(rng, o)
-        return T(rng.choice(choices))
+        k = rng.choice(choices)
+        if k == 'clsobj':
+            return T(k, sp=rng.choice(['type', 'type', 'Type', 'Any']))
+        return T(k)
     if hashable:
         k = rng.choice(['tuple', 'vtuple', 'optional', 'frozenset'])
         if k == 'optional':
@@ -519,6 +522,8 @@ def gen_value(rng, t, built, size=3):
     if k == 'enum':
         E = built.get(t['name'])
         return rng.choice(list(E))
+    if k == 'clsobj':
+        return class_object(rng, built)
     if k == 'sub':
         return sub_value(built.get(t['name']), _gen_scalar(rng, t['base']))
     if k == 'annpat':
@@ -577,6 +582,27 @@ def gen_value(rng, t, built, size=3):
     if k == 'cls':
         return gen_instance(rng, t, built, size - 1)
     raise ValueError(k)
+
+
+class PlainClass:
+    """a user class that is neither a dataclass nor anything else the library knows"""
+
+
+BUILTIN_CLASS_OBJECTS = [int, str, dict, object, dt.date, decimal.Decimal, PlainClass, collections.OrderedDict]
+
+
+def class_object(rng, built):
+    """a value that is a *class object* (what a `type` / `Type[...]` / `Any` position may hold): a builtin or stdlib class, a
+    plain user class, or one of the classes of the module under test - its dataclasses (wizard or not), Enums, NamedTuples"""
+    own = [v for n, v in sorted(vars(built.mod).items()) if isinstance(v, type) and getattr(v, '__module__', None) == built.modname]
+    import dataclasses
+    dcs = [c for c in own if dataclasses.is_dataclass(c)]
+    r = rng.random()
+    if dcs and r < 0.5:
+        return rng.choice(dcs)
+    if own and r < 0.65:
+        return rng.choice(own)
+    return rng.choice(BUILTIN_CLASS_OBJECTS)
 
 
 _NO_FALSY = object()
